@@ -156,7 +156,15 @@ pub fn gen(rng: &mut Rng, tier: Tier, out: &mut Vec<String>) {
         let zoff = *rng.pick(&[0.5f32, 1.2, 1.9]) * zslope;
         // distant scenes: the whole homogeneous vector scaled by 1e4..1e8, so reciprocal depths (and
         // their differences between surfaces) are far below f32::EPSILON while the image is the same
-        let far = if !painter && rng.chance(1, 4) { 10f32.powf(rng.f32_in(4.0, 8.0)) } else { 1.0 };
+        // painter scenes too are scaled as a whole (up by 1e3..1e7 or down by 1e-6..1e-3): the depth ORDER and
+        // the image do not change, but sort keys leave the unit range (fixed-point or truncated keys tie)
+        let far = if !painter && rng.chance(1, 4) {
+            10f32.powf(rng.f32_in(4.0, 8.0))
+        } else if painter && rng.chance(1, 2) {
+            if rng.bool() { 10f32.powf(rng.f32_in(3.0, 7.0)) } else { 10f32.powf(rng.f32_in(-6.0, -3.0)) }
+        } else {
+            1.0
+        };
         for j in 0..ntris {
             for _ in 0..3 {
                 let mut p = if ortho {
